@@ -1,5 +1,5 @@
 SHARDING = {"dir": "adder/sharding", "pkgname": "sharding"}
-FILES = ["adder_sharding/c13_rig_test.go", "adder_sharding/c13_synth_test.go", "adder_sharding/c13_files_test.go", "adder_sharding/c13_shape_test.go"]
+FILES = ["adder_sharding/c13_rig_test.go", "adder_sharding/c13_synth_test.go", "adder_sharding/c13_files_test.go", "adder_sharding/c13_shape_test.go", "adder_sharding/c13_tree_test.go"]
 
 SPEC = {
     "go": [
@@ -8,6 +8,8 @@ SPEC = {
         dict(SHARDING, files=FILES, test="TestVerifC13Single", n_quick=200, n_thorough=15000, shards_quick=2, shards_thorough=8,
              timeout_quick=600, timeout_thorough=3000),
         dict(SHARDING, files=FILES, test="TestVerifC13Files", n_quick=60, n_thorough=3000, shards_quick=4, shards_thorough=12,
+             timeout_quick=600, timeout_thorough=3000),
+        dict(SHARDING, files=FILES, test="TestVerifC13Tree", n_quick=120, n_thorough=5000, shards_quick=4, shards_thorough=12,
              timeout_quick=600, timeout_thorough=3000),
         dict(SHARDING, files=FILES, test="TestVerifC13Shape", n_quick=160, n_thorough=6000, shards_quick=4, shards_thorough=12,
              timeout_quick=600, timeout_thorough=3000),
@@ -22,7 +24,11 @@ SPEC = {
             "TestVerifC13Shape: single files (sizes 0, 1, k-1, k, k+1, around a full node / tree / trickle layer for links-per-block 2..5 and "
             "the shipped 174, multiples, random; zeros = shared sub-DAGs) x size-k chunkers x balanced / trickle x raw-leaves x CID v0/v1 "
             "x single / sharding service through the real Adder: the DAG the importer built, block by block in the order of DAGService.Add, "
-            "is compared with the Coq model of the importer; non-trivial there = the DAG has an internal node",
+            "is compared with the Coq model of the importer; non-trivial there = the DAG has an internal node. "
+            "TestVerifC13Tree: file trees of depth 0..3 with 0..5 entries per directory (empty directories, empty files, hidden names, a single "
+            "file, the empty directory) x wrap x hidden x FromFiles / FromMultipart x layouts x links-per-block 2, 3, 174 x single / sharding "
+            "service: EVERY node handed to DAGService.Add (file blocks and directory nodes with their link names) is compared with the model of "
+            "the importer on a tree; non-trivial there = at least one directory node and one file",
     "codes": {1: "model_eq_impl (C13 trace of BlockAllocate / BlockPut rounds / Pin calls and result)",
               10: "delivered_equals_produced", 11: "shards_partition", 12: "shard_under_limit", 13: "shard_depth_covers",
               14: "final_pins", 15: "failure_no_root_pin",
@@ -35,7 +41,14 @@ SPEC = {
               33: "importer shape: a recorded size (UnixFS blocksize / Filesize) is not the number of file bytes below the link / the root",
               34: "importer shape: number of UnixFS blocksizes differs from the number of links",
               35: "importer shape: the single-file add failed or the root is not in the stream",
-              36: "importer shape: the add of a single file did not return within 30 s (the layout does not terminate)"},
+              36: "importer shape: the add of a single file did not return within 30 s (the layout does not terminate)",
+              40: "importer tree: a link of an observed block goes to a block not handed to the DAG service before, or the root was never handed to it",
+              41: "importer tree: a file of the tree does not read back byte for byte by its path from the returned root over the observed blocks",
+              42: "importer tree: the links of a directory block are not strictly sorted by name, or a file block has a named link",
+              45: "importer tree: a block that is neither a raw node, a UnixFS file node nor a basic directory (HAMT shard, symlink)",
+              46: "importer tree: number of UnixFS blocksizes differs from the number of links",
+              47: "importer tree: the add failed or the root is not in the stream",
+              48: "importer tree: the add did not return within 30 s"},
     "trusted": ["harness/adder_sharding/c13_rig_test.go: recording Cluster.BlockAllocate / Cluster.Pin / IPFSConnector.BlockPut services "
                 "behind a local gorpc server; call destination and MultiCall identity read from *rpc.Call through a server stats handler",
                 "sha2-256 collision freedom and injectivity of the CBOR link-map encoding (cluster-built nodes are modelled by their link list)",
@@ -58,15 +71,24 @@ SPEC = {
                   "balanced fan-out 1..maxlinks at uniform depth, the trickle layer structure (tshape; fan-out <= maxlinks + 4 (maxDepth - 1)), blocks are handed to DAGService.Add children first and the root last; this stream "
                   "meets the importer contract of the adder theorems, giving single_file_delivered_closed_and_readable(_sharded): after a successful add "
                   "exactly the importer's root is pinned, every block reachable from it was put, and a reader over the blocks that were put returns "
-                  "exactly the input bytes. The importer model is compared block by block with the DAG the real importer builds (TestVerifC13Shape, code 1) "
+                  "exactly the input bytes. The same for FILE TREES (Model/C13_Tree.v: ipfsadd AddAllAndPin / addDir / addNode / outputDirs, go-mfs Mkdir / PutNode / "
+                  "GetNode / Flush / Close, BasicDirectory with links sorted by name, hidden filter, wrap; no HAMT, no bound on the width): the emitted "
+                  "blocks are closed under links and contain the root (tree_emission_closed), a directory links exactly its entries' names, sorted "
+                  "(dir_links_named), and tree_delivered_closed_and_readable(_sharded): for every emission with the model's blocks (go-mfs emits directory "
+                  "nodes in Go map order, several times), after a successful add the root is pinned, every reachable block was put, and every visible file "
+                  "is found by its path and reads back byte for byte from the blocks that were put (TestVerifC13Tree compares every emitted node). "
+                  "The importer model is compared block by block with the DAG the real importer builds (TestVerifC13Shape, code 1) "
                   "and the observed DAG is checked against the boolean clauses (codes 30..33; closed_/shape_/trickle_monitors_sound, balanced_/trickle_passes_monitors)",
-    "level_note": "partial: for directories (incl. HAMT sharding, MFS), for the rabin / buzhash chunkers, and for the encodings (dag-pb, UnixFS protobuf, "
+    "level_note": "partial: for HAMT-sharded directories (never produced by this code: uio.HAMTShardingSize stays 0), symlinks, for the rabin / buzhash chunkers, and for the encodings (dag-pb, UnixFS protobuf, "
                   "raw leaves, CID versions, SHA-256 and the other hashes: in the model a block is its content and the hash any collision-free function) "
                   "the importer stays an input of the model; closure of the delivered blocks, byte-for-byte read-back and root equality (sharded = "
                   "unsharded = go-unixfs importer) are there differential tests on generated file trees, not proofs. "
                   "Model tied to code by differential testing (generator-bounded)",
     "assumptions": ["the importer stream is link-closed and contains the root (go-unixfs importer contract; proved for one file with a size-k chunker, "
-                    "checked on every real-tree case otherwise)",
+                    "proved for file trees without symlinks, checked on every real-tree case otherwise)",
+                    "uio.HAMTShardingSize = 0 (shipped; nothing in ipfs-cluster sets it; go-mfs builds plain BasicDirectories): directories are never "
+                    "HAMT-sharded, whatever their width; names unique per directory (a file system guarantees it); fewer than 262144 entries per add "
+                    "(no FlushMemFree); one top-level entry per add",
                     "no CID collision among the blocks of one DAG (injective_on); chunk size k > 0 (chunker.FromString rejects size-0) and "
                     "k <= 1 MiB (BlockSizeLimit, ChunkSizeLimit: not modelled); links-per-block >= 2 (shipped: 174)",
                     "BlockAllocate returns a non-nil list (the real RPC does)",
